@@ -85,6 +85,24 @@ def delete_m2m_family():
     return out
 
 
+def delete_model_family():
+    """deterministic family: one upgrade deletes a model and changes another one (two evolutions' worth of work in
+    one preview): the DROP TABLE is previewed like everything else"""
+    out = []
+    alpha = {'name': 'Alpha', 'table': 'vapp_alpha', 'unique_together': [], 'index_together': [], 'indexes': [],
+             'constraints': [], 'fields': [fld('id', 'AutoField', primary_key=True), fld('a', 'IntegerField', null=True)]}
+    alpha1 = dict(alpha, fields=alpha['fields'] + [fld('b', 'IntegerField', null=True)])
+    coupon = {'name': 'Coupon', 'table': 'vapp_coupon', 'unique_together': [], 'index_together': [], 'indexes': [],
+              'constraints': [], 'fields': [fld('id', 'AutoField', primary_key=True), fld('code', 'IntegerField', null=True)]}
+    add = {'t': 'AddField', 'model': 'Alpha', 'field': 'b', 'ftype': 'IntegerField', 'initial': None, 'attrs': [['null', 'true']]}
+    dele = {'t': 'DeleteModel', 'model': 'Coupon'}
+    for muts in ([add, dele], [dele, add]):
+        out.append({'spec0': {'apps': [{'id': 'vapp', 'models': [alpha, coupon]}]},
+                    'spec1': {'apps': [{'id': 'vapp', 'models': [alpha1]}]},
+                    'muts': muts, 'rows': True, 'family': 'delete-model-next-to-a-change'})
+    return out
+
+
 def custom_field_family():
     """deterministic family: fields of two or three project-defined field classes (one module) are added: the written
     evolution imports them; its text must not depend on the hash seed either"""
@@ -213,7 +231,7 @@ def run(ctx):
                 '`evolve --execute`; non-trivial = the preview has at least one statement' % len(seeds))
     flag = ctx.variant.get('together_iteration')
     n = 82 if quick else 600
-    cases = [{'case': c, 'seed': i} for i, c in enumerate(together_family() + index_family() + delete_m2m_family() + custom_field_family() + sql_file_family() + bound_value_family())]
+    cases = [{'case': c, 'seed': i} for i, c in enumerate(together_family() + index_family() + delete_m2m_family() + custom_field_family() + sql_file_family() + bound_value_family() + delete_model_family())]
     tries = 0
     while len(cases) < n + 10 and tries < n * 6:
         tries += 1
@@ -257,6 +275,10 @@ def run(ctx):
                 ctx.fail(None, '`evolve --sql` modified the database: %s' % (r['preview_writes'][:2],), rr)
             if r['preview_status'] != 'ok' and r['execute_status'] != 'ok':
                 ctx.count('both_rejected')
+                if case.get('family') in ('delete-m2m', 'delete-model-next-to-a-change', 'bound-values', 'sql_files'):
+                    # these upgrades are valid by construction
+                    ctx.fail(None, 'a valid upgrade is refused by the preview (%s) and by the execution (%s)'
+                             % (r['preview_error'], r['execute_error']), rr)
                 continue
             if r['preview_status'] == 'ok' and r['execute_status'] != 'ok':
                 if 'Error applying evolution' in (r['execute_error'] or ''):
